@@ -12,6 +12,8 @@ mod tape;
 mod val;
 mod world;
 mod zoo;
+mod zoo_gen;
+mod zoo_gen_list;
 
 use std::process::exit;
 
